@@ -2,6 +2,7 @@ package config
 
 import (
 	"fmt"
+	"net"
 	"reflect"
 )
 
@@ -59,5 +60,21 @@ func checkIsSetRecursive(val reflect.Value) error {
 		}
 	}
 
+	return nil
+}
+
+// Checks that addr is something net.Listen can work with: host:port, with a port that exists.
+// The host part may be empty (all interfaces).
+func verifyListenAddress(name string, addr string) error {
+	if addr == "" {
+		return fmt.Errorf("%s cannot be empty", name)
+	}
+	_, port, err := net.SplitHostPort(addr)
+	if err != nil {
+		return fmt.Errorf("%s must be of the form host:port: %v", name, err)
+	}
+	if _, err := net.LookupPort("tcp", port); err != nil {
+		return fmt.Errorf("%s has an unusable port: %v", name, err)
+	}
 	return nil
 }
